@@ -14,8 +14,10 @@ insert: super().insert(index, e); _reorder()        `insert` (`pyInsertIdx` = li
 remove: super().remove(e); if owned: _reorder()     `remove` (ValueError when absent)
 pop:    super().pop(index); _reorder()              `pop` (`normIdx` = IndexError outside [-n, n))
 __setitem__(int): decorator reads self[index]       `setItem`: IndexError first, then
-        (IndexError), then _order_entity(int(index),  pos := ordFn(index) with the index AS GIVEN
-        entity, True); super().__setitem__            (negative stays negative), then store
+        (IndexError), then position = int(index);     pos := ordFn(normalised index), then store
+        if position < 0: position += len(self);
+        _order_entity(position, entity, True);
+        super().__setitem__
 __delitem__(int | slice): super(); _reorder()       `delItem`, `delIdxs` (the indices removed by the
                                                      builtin slice deletion are an input)
 __setitem__(slice) — `_list_decorators.__setitem__` `setSlice` on (start, stop, step) =
@@ -99,7 +101,7 @@ def setItem (st : St) (i : Int) (e : Nat) : Except Err St :=
   match normIdx st.items.length i with
   | none => .error .indexError
   | some k =>
-    let st1 := orderEntity st i e true
+    let st1 := orderEntity st (k : Int) e true
     .ok { st1 with items := st1.items.set k e }
 
 /-- removal of the given indices (what `list.__delitem__(slice)` removes), then `_reorder` -/
